@@ -10,7 +10,7 @@ A *container* is a glyph or the font (`World.conts`); `g.reg` is its `identifier
 are in it.  `run {} ops` is the world after the operation sequence `ops` (any of the 53 kinds of
 operation of `Ident.Op`, any arguments, any length).
 -/
-import DefconModel.Lemmas.Ident
+import DefconModel.Lemmas.IdentLeak
 
 namespace DefconModel.Props.C10
 open DefconModel DefconModel.Ident
@@ -47,19 +47,63 @@ def IdsExactAfter (ops : List Op) : Prop := ∀ g ∈ (run {} ops).conts, Exact 
 /-- The full statement: for every history. -/
 def IdsExactFull : Prop := ∀ ops, IdsExactAfter ops
 
-/-- PARTIAL (proved): in every reachable state, a container in which no object is half-built and
-which holds no identifier of an abandoned object (`leaked = []`, finding F29) satisfies the full
-statement: no identifier is carried twice, and `identifiers` = the identifiers carried.
+/-- Between operations nothing is half-built: in every reachable state no container has a pen
+contour in progress or instantiated-but-uninserted objects pending. -/
+theorem settled_reachable (ops : List Op) : ∀ g ∈ (run {} ops).conts, g.Settled := by
+  suffices H : ∀ (w : World), (∀ g ∈ w.conts, Q False g) → ∀ g ∈ (run w ops).conts, Q False g by
+    intro g hg
+    refine (H {} ?_ g hg).1
+    intro g hg
+    simp only [List.mem_cons, List.not_mem_nil, or_false] at hg
+    rcases hg with rfl | rfl | rfl | rfl <;> exact q_empty False
+  induction ops with
+  | nil => intro w h; exact h
+  | cons op ops ih =>
+    intro w h
+    exact ih _ (q_step False w op h (fun f => f.elim))
+
+/-- PARTIAL (proved): in every reachable state, a container that holds no identifier of an
+abandoned object (`leaked = []`, finding F29) satisfies the full statement: no identifier is
+carried twice, and `identifiers` = the identifiers carried.
 What is missing for the full statement is exactly F29: identifiers registered by objects that were
 created for the container (`instantiate*`, a pen's contour) and then dropped before insertion. -/
 theorem ids_exact_partial (ops : List Op) (g : Glyph) (hg : g ∈ (run {} ops).conts)
-    (hs : g.Settled) (hl : g.leaked = []) : Exact g := by
+    (hl : g.leaked = []) : Exact g := by
   have h := held_exact g (inv_reachable ops g hg)
-  obtain ⟨h1, h2, h3, h4, h5⟩ := hs
+  obtain ⟨h1, h2, h3, h4, h5⟩ := settled_reachable ops g hg
   have hheld : g.held = g.carried := by
     simp [Glyph.held, Glyph.stagedIds, h1, h2, h3, h4, h5, hl]
   rw [hheld] at h
   exact ⟨h.1, h.2.2⟩
+
+/-- F29 is the only way to leak: an operation that is not an `instantiate*`-without-insertion, and
+that is not a composite cut short by a rejection, leaves a leak-free world leak-free. -/
+theorem leak_only_at_f29 (w : World) (op : Op) (hS : ∀ g ∈ w.conts, g.Settled ∧ g.leaked = [])
+    (hi : Op.inst op = false) (hc : Op.composite op = true → (step w op).2 = .ok) :
+    ∀ g ∈ (step w op).1.conts, g.Settled ∧ g.leaked = [] := by
+  intro g hg
+  have := q_step True w op (fun g hg => ⟨(hS g hg).1, fun _ => (hS g hg).2⟩) (fun _ => ⟨hi, hc⟩) g hg
+  exact ⟨this.1, this.2 trivial⟩
+
+/-- `ids_exact` for every history that stays clear of F29 (`Clean`: no `instantiate*` without
+insertion, no composite operation cut short — any other operations, any arguments, any length,
+rejected single-object operations included): afterwards, in every container, no two objects share
+an identifier and the registry is exactly the set of identifiers carried. -/
+theorem ids_exact_clean (ops : List Op) (hclean : Clean {} ops) : IdsExactAfter ops := by
+  have key : ∀ (ops : List Op) (w : World), (∀ g ∈ w.conts, g.Settled ∧ g.leaked = []) → Clean w ops →
+      ∀ g ∈ (run w ops).conts, g.Settled ∧ g.leaked = [] := by
+    intro ops
+    induction ops with
+    | nil => intro w h _; exact h
+    | cons op ops ih =>
+      intro w h hc
+      exact ih _ (leak_only_at_f29 w op h hc.1 hc.2.1) hc.2.2
+  intro g hg
+  have h0 : ∀ g ∈ ({} : World).conts, g.Settled ∧ g.leaked = [] := by
+    intro g hg
+    simp only [List.mem_cons, List.not_mem_nil, or_false] at hg
+    rcases hg with rfl | rfl | rfl | rfl <;> exact ⟨⟨rfl, rfl, rfl, rfl, rfl⟩, rfl⟩
+  exact ids_exact_partial ops g hg (key ops {} h0 hclean g hg).2
 
 /-- In every reachable state, whatever was leaked: no two objects of a container share an
 identifier, and every identifier carried by an object is registered. -/
@@ -133,7 +177,8 @@ theorem ids_exact_violated_reload :
 -- non-vacuity: a reachable, settled, leak-free container with a non-trivial registry
 example : ((run {} [.insContour 0 0 ⟨some 1, [⟨.line, some 2⟩, ⟨.off, none⟩]⟩, .insAnchor 0 0 (some 3) true,
     .rmPoint 0 0 0]).get 0).reg = [1, 3] := by decide
-example : ((run {} [.insContour 0 0 ⟨some 1, [⟨.line, some 2⟩]⟩]).get 0).Settled := by decide
+example : Clean {} [.insContour 0 0 ⟨some 1, [⟨.line, some 2⟩]⟩, .insAnchor 0 0 (some 2) true,
+    .copyFrom 1 0, .reverse 0 0, .rmContour 0 0] := by decide
 example : ((run {} [.insAnchor 0 0 (some 2) false,
     .draw 0 [⟨some 1, [⟨.line, some 3⟩, ⟨.line, some 2⟩]⟩] [] false]).get 0).leaked = [1, 3] := by decide
 
@@ -374,7 +419,7 @@ theorem generated_fresh_contour (g : Glyph) (ci : Nat) (cands : List Id) (c : Co
       simp only [Res.gen.injEq] at h
       refine ⟨x, h.symm, hx, ?_, ?_⟩
       · simp [mem_regAdd]
-      · simp [List.getElem?_set, (List.getElem?_eq_some_iff.mp hc).1]
+      · simp [(List.getElem?_eq_some_iff.mp hc).1]
 
 /-- `Contour.generateIdentifierForPoint(point)`: same for a point of a contour of a container. -/
 theorem generated_fresh_point (g : Glyph) (ci pi : Nat) (cands : List Id) (c : Contour) (p : Point)
@@ -405,7 +450,7 @@ theorem generated_fresh_point (g : Glyph) (ci pi : Nat) (cands : List Id) (c : C
       simp only [Res.gen.injEq] at h
       refine ⟨x, h.symm, hx, ?_, ?_⟩
       · simp [mem_regAdd]
-      · simp [setPts, List.getElem?_set, (List.getElem?_eq_some_iff.mp hc).1]
+      · simp [setPts, (List.getElem?_eq_some_iff.mp hc).1]
 
 /-- `generateIdentifier()` of a component, an anchor, a guideline of a container: when the object
 has no identifier, the one returned was not registered before and is registered afterwards. -/
